@@ -56,6 +56,44 @@ def _resolve(t):
     return t
 
 
+def _deep(t):
+    """the type with every alias replaced by what it stands for (what the C++ type system sees)"""
+    if isinstance(t, dict):
+        if t.get("k") == "alias":
+            return _deep(t["t"])
+        return {k: _deep(v) for k, v in t.items() if k not in ("name", "tag")}
+    if isinstance(t, list):
+        return [_deep(x) for x in t]
+    return t
+
+
+def _unions(t, out):
+    if isinstance(t, dict):
+        if t.get("k") == "union":
+            out.append(t)
+        for v in t.values():
+            _unions(v, out)
+    elif isinstance(t, list):
+        for x in t:
+            _unions(x, out)
+
+
+def cpp_variant_tag_clash(p):
+    """Shape classes of the unions of package p that are ONE std::variant type in C++ (equal after alias resolution) but are spelled
+    with different case types, hence carry different NDJSON tags - the generated C++ has one JSON converter per variant type."""
+    us = []
+    for s in p.steps:
+        _unions(s["t"], us)
+    groups = {}
+    for u in us:
+        groups.setdefault(json.dumps(_deep(u), sort_keys=True), set()).add(type_class(u))
+    out = set()
+    for g in groups.values():
+        if len(g) > 1:
+            out |= g
+    return out
+
+
 def cpp_unbuildable(t, top=True):
     """Type shapes for which the generated C++ does not compile on the pinned tree (std::vector<bool>: `bool*` and
     streams of bool) - a C08 finding, not something the wire checks can judge.  Such types are exercised through the
